@@ -199,13 +199,72 @@ pub mod sync {
                     pub fn into_inner(self) -> $t {
                         self.0.into_inner()
                     }
+                    #[inline]
+                    pub fn get_mut(&mut self) -> &mut $t {
+                        self.0.get_mut()
+                    }
+                    #[inline]
+                    pub fn fetch_and(&self, v: $t, o: Ordering) -> $t {
+                        fine_point(pt::ATOMIC_RMW);
+                        self.0.fetch_and(v, o)
+                    }
+                    #[inline]
+                    pub fn fetch_or(&self, v: $t, o: Ordering) -> $t {
+                        fine_point(pt::ATOMIC_RMW);
+                        self.0.fetch_or(v, o)
+                    }
+                    #[inline]
+                    pub fn fetch_xor(&self, v: $t, o: Ordering) -> $t {
+                        fine_point(pt::ATOMIC_RMW);
+                        self.0.fetch_xor(v, o)
+                    }
+                    #[inline]
+                    pub fn fetch_nand(&self, v: $t, o: Ordering) -> $t {
+                        fine_point(pt::ATOMIC_RMW);
+                        self.0.fetch_nand(v, o)
+                    }
+                    /// One read-modify-write step per attempt, like std's CAS loop.
+                    #[inline]
+                    pub fn fetch_update<F>(&self, s: Ordering, f: Ordering, mut func: F) -> Result<$t, $t>
+                    where
+                        F: FnMut($t) -> Option<$t>,
+                    {
+                        let mut prev = self.load(f);
+                        while let Some(next) = func(prev) {
+                            match self.compare_exchange_weak(prev, next, s, f) {
+                                x @ Ok(_) => return x,
+                                Err(p) => prev = p,
+                            }
+                        }
+                        Err(prev)
+                    }
+                }
+                impl From<$t> for $name {
+                    fn from(v: $t) -> Self {
+                        Self::new(v)
+                    }
                 }
             };
         }
 
         atomic_int!(AtomicUsize, AtomicUsize, usize);
+        atomic_int!(AtomicIsize, AtomicIsize, isize);
         atomic_int!(AtomicU64, AtomicU64, u64);
+        atomic_int!(AtomicI64, AtomicI64, i64);
+        atomic_int!(AtomicU32, AtomicU32, u32);
+        atomic_int!(AtomicI32, AtomicI32, i32);
+        atomic_int!(AtomicU16, AtomicU16, u16);
+        atomic_int!(AtomicU8, AtomicU8, u8);
         atomic_int!(AtomicBool, AtomicBool, bool);
+
+        #[allow(missing_docs)]
+        impl AtomicBool {
+            #[inline]
+            pub fn fetch_not(&self, o: Ordering) -> bool {
+                fine_point(pt::ATOMIC_RMW);
+                self.0.fetch_xor(true, o)
+            }
+        }
 
         macro_rules! atomic_arith {
             ($name:ident, $t:ty) => {
@@ -235,7 +294,13 @@ pub mod sync {
             };
         }
         atomic_arith!(AtomicUsize, usize);
+        atomic_arith!(AtomicIsize, isize);
         atomic_arith!(AtomicU64, u64);
+        atomic_arith!(AtomicI64, i64);
+        atomic_arith!(AtomicU32, u32);
+        atomic_arith!(AtomicI32, i32);
+        atomic_arith!(AtomicU16, u16);
+        atomic_arith!(AtomicU8, u8);
     }
 
     #[derive(Default)]
@@ -312,6 +377,12 @@ pub mod sync {
         /// Exclusive access through `&mut`.
         pub fn get_mut(&mut self) -> &mut T {
             self.data.get_mut()
+        }
+
+        /// Whether the mutex is currently held.
+        pub fn is_locked(&self) -> bool {
+            fine_point(pt::MUTEX_LOCK);
+            self.held.get()
         }
     }
 
@@ -409,6 +480,31 @@ pub mod sync {
             self.writer.set(true);
             RwLockWriteGuard { lock: self }
         }
+
+        /// Non-blocking shared acquire.
+        pub fn try_read(&self) -> Option<RwLockReadGuard<'_, T>> {
+            fine_point(pt::RWLOCK_READ);
+            if self.writer.get() {
+                return None;
+            }
+            self.readers.set(self.readers.get() + 1);
+            Some(RwLockReadGuard { lock: self })
+        }
+
+        /// Non-blocking exclusive acquire.
+        pub fn try_write(&self) -> Option<RwLockWriteGuard<'_, T>> {
+            fine_point(pt::RWLOCK_WRITE);
+            if self.writer.get() || self.readers.get() > 0 {
+                return None;
+            }
+            self.writer.set(true);
+            Some(RwLockWriteGuard { lock: self })
+        }
+
+        /// Exclusive access through `&mut`.
+        pub fn get_mut(&mut self) -> &mut T {
+            self.data.get_mut()
+        }
     }
 
     impl<T: Default> Default for RwLock<T> {
@@ -489,6 +585,12 @@ pub mod sync {
         pub fn set(&self, value: T) -> Result<(), T> {
             fine_point(pt::ONCE);
             self.0.set(value)
+        }
+        pub fn get_mut(&mut self) -> Option<&mut T> {
+            self.0.get_mut()
+        }
+        pub fn take(&mut self) -> Option<T> {
+            self.0.take()
         }
         pub fn get_or_init(&self, f: impl FnOnce() -> T) -> &T {
             fine_point(pt::ONCE);
@@ -576,6 +678,11 @@ pub mod thread {
     /// Park **without timeout**: returns only after an `unpark` (token semantics as in std).
     pub fn park_timeout(_timeout: Duration) {
         park();
+    }
+
+    /// Sleeping is a yield: time does not exist under the controlled scheduler.
+    pub fn sleep(_d: Duration) {
+        yield_now();
     }
 
     /// Park.
